@@ -36,6 +36,47 @@ def check_plain(y, miss, llas, p, rep):
         rep.violation(name + ".band", name, case, f"band differs from the fixed-lambda smoother at lopt={lopt} at cells {d.tolist()[:6]}")
 
 
+def robust_reference(y0, w, llas, p):
+    """independent numpy re-statement of the robust GCV scheme of the statement: 4 rounds, bisquare weights from the
+    residuals of the cells that carry weight, positive residuals keep weight 1, rounds 3-4 keep the lambda of round 2"""
+    from hdc.algo.ops.ws2d import ws2d
+    from standin.select_ref import irls10
+    m = len(y0)
+    n = w.sum()
+    eig = -2 + 2 * np.cos(np.arange(m) * np.pi / m); eig[0] = 1e-15
+    rw = np.ones(m)
+    best = [1e15, 0.0]
+    hist = []
+    ytemp = None
+    for it in range(4):
+        grid = np.array([hist[1][1]]) if it > 1 else 10 ** llas
+        wt = w * rw
+        for s in grid:
+            z = ws2d(y0, s, wt)
+            gamma = wt / (wt + s * ((-1 * eig) ** 2))
+            score = (((wt ** 0.5) * (y0 - z)) ** 2).sum() / (wt.sum() * (1 - gamma.sum() / wt.sum()) ** 2)
+            if score < best[0]:
+                best = [score, s]; ytemp = z
+        s = best[1]
+        gamma = wt / (wt + s * ((-1 * eig) ** 2))
+        r = y0 - ytemp
+        sel = wt != 0
+        mad = np.median(np.abs(r[sel] - np.median(r[sel])))
+        if mad > 1e-10 * max(1.0, np.max(np.abs(r[sel]))):
+            u = r / (1.4826 * mad * np.sqrt(1 - gamma.sum() / n))
+            rw = (1 - (u / 4.685) ** 2) ** 2
+            rw[np.abs(u / 4.685) > 1] = 0
+            rw[r > 0] = 1
+        hist.append(list(best))
+    lopt = hist[1][1]
+    rwt = w * rw
+    if p is None:
+        z = ws2d(y0, lopt, rwt)
+    else:
+        z = irls10(y0, lopt, rwt, p)[0]
+    return np.round(z), lopt
+
+
 def check_robust(kind, y, miss, llas, p, rep):
     yy = y.copy(); yy[miss] = ND
     name = "robust" if p is None else "robust.p"
@@ -63,6 +104,15 @@ def check_robust(kind, y, miss, llas, p, rep):
         if np.abs(out - want).max() > 1:
             rep.violation(name + "." + kind, "ws2dwcv", case, f"{kind} series not reproduced: {out.tolist()[:8]}")
             return
+    # missing cells carry zero weight through all robust rounds: compare with an independent re-statement of the scheme
+    try:
+        refband, reflopt = robust_reference(np.where(miss, 0.0, y), (~miss).astype("float64"), llas, p)
+        if abs(reflopt - lopt) <= 1e-9 * reflopt and np.abs(out.astype(float) - refband).max() > 1 and np.abs(refband).max() < 32000:
+            d = np.flatnonzero(np.abs(out.astype(float) - refband) > 1)
+            rep.violation(name + ".weights", "ws2dwcv", case, f"band differs from the robust scheme with zero weight on missing cells at cells {d.tolist()[:6]} (e.g. {int(out[d[0]])} vs {refband[d[0]]:.0f}); missing cells: {np.flatnonzero(miss).tolist()[:8]}")
+            return
+    except ZeroDivisionError:
+        pass
     # independence from the placeholder
     y2 = y.copy(); y2[miss] = 30000.0
     out2, lopt2 = (ws2dwcv(y2, 30000.0, llas, True) if p is None else ws2dwcvp(y2, 30000.0, p, llas, True))
@@ -85,6 +135,24 @@ def run(tier, rng, rep):
         p = [None, 0.9, 0.5, 0.1][it % 4]
         check_plain(y, miss, llas, p, rep)
         check_robust("random", y, miss, default, p, rep)
+    # seasonal cycle carrying a short ripple: the GCV curve has two valleys (shallow at the lightest lambda, deep further up)
+    for m, per, rip, amp in ((60, 36.0, 3.0, 600), (72, 36.0, 3.0, 900), (90, 30.0, 4.0, 500), (48, 24.0, 3.0, 700)):
+        t = np.arange(m)
+        y = np.rint(4000 + 2500 * np.sin(2 * np.pi * t / per) + amp * np.sin(2 * np.pi * t / rip))
+        miss = np.zeros(m, bool); miss[[7, 8, 31]] = True
+        for llas in (default, np.linspace(-2.0, 4.0, 13), np.arange(-2.0, 4.1, 0.1)):
+            for p in (None, 0.9):
+                check_plain(y, miss, llas, p, rep)
+    # series with negative values (fitted curve negative at missing cells)
+    for it in range(12 if tier == "quick" else 80):
+        n = int(rng.choice([12, 30, 60]))
+        y = rng.integers(-5000, 5000, n).astype("float64")
+        miss = rng.random(n) < 0.25
+        if (~miss).sum() < 5:
+            continue
+        for p in (None, 0.9):
+            check_robust("signed", y, miss, default, p, rep)
+            check_plain(y, miss, default, p, rep)
     for n in (6, 12, 30, 90):
         t = np.arange(n)
         structured = {
@@ -106,6 +174,16 @@ def run(tier, rng, rep):
     cube = rng.integers(0, 9000, (t, 2, 2)).astype("int16")
     da = xr.DataArray(cube, dims=("time", "y", "x"))
     da["time"] = np.array([np.datetime64("2001-01-01") + np.timedelta64(int(k) * 10, "D") for k in range(t)])
+    # nodata = 0 must be honoured even when the array carries another nodata attribute
+    c0 = cube.copy(); c0[rng.random(c0.shape) < 0.2] = 0
+    da0 = xr.DataArray(c0, dims=("time", "y", "x"), attrs={"nodata": -9999}); da0["time"] = da["time"]
+    ds0 = da0.hdc.whit.whitswcv(nodata=0, robust=False).transpose("time", "y", "x")
+    rep.case("accessor.whitswcv.nodata0", {})
+    for r in range(2):
+        for c in range(2):
+            o, l = ws2dwcv(c0[:, r, c].astype("float64"), 0.0, default, False)
+            if not np.array_equal(ds0.band.values[:, r, c], o):
+                rep.violation("accessor.whitswcv.nodata0", "WhittakerSmoother.whitswcv", {"pixel": [r, c]}, "whitswcv(nodata=0) does not treat the 0-coded cells as missing (band differs from the kernel called with nodata=0)")
     for p in (None, 0.9):
         ds = da.hdc.whit.whitswcv(nodata=ND, p=p).transpose("time", "y", "x")
         rep.case("accessor.whitswcv", {"p": p})
